@@ -39,6 +39,7 @@ type Contract struct {
 	EnsPanic []*Clause
 	Modifies []string // raw location expressions; "heap" = everything
 	Loops    map[int]*LoopSpec
+	QLoops   map[string]*LoopSpec // loops of inlined helpers: "Helper.1" -> spec (names resolve in the helper's frame)
 	Flags    map[string]string // nopanic, maypanic, arith, pure, inline, atomic, root...
 	Params   []string          // for ext/type contracts: parameter names (positional binding)
 	Results  []string
@@ -98,6 +99,7 @@ type ContractSet struct {
 	Families []*Family
 	FieldFuncs map[string]string // pkg::Struct.field -> pkg::TypeContract
 	ModSets    map[string][]string
+	Guarded    map[string]string // pkg::Struct.field -> name of the mutex field in the same struct
 }
 
 type Family struct {
@@ -118,11 +120,12 @@ func newContractSet() *ContractSet {
 	cs := &ContractSet{
 		Funcs: map[string]*Contract{}, Types: map[string]*Contract{}, Ifaces: map[string]*Contract{},
 		Ghosts: map[string]*GhostDecl{}, SpecSyms: map[string]specSig{}, Templates: map[string]*Contract{},
-		FieldFuncs: map[string]string{}, ModSets: map[string][]string{},
+		FieldFuncs: map[string]string{}, ModSets: map[string][]string{}, Guarded: map[string]string{},
 	}
 	// built-in ghost state maintained by the generator
 	cs.Ghosts["clock"] = &GhostDecl{Name: "clock", Sort: "Int"}
 	cs.Ghosts["spawned"] = &GhostDecl{Name: "spawned", Sort: "Int"}
+	cs.Ghosts["rangeit"] = &GhostDecl{Name: "rangeit", Sort: "Int", Dims: 1}
 	for _, n := range []string{"chanlen", "chancap", "chansent", "chanrecv", "chanclosed", "held", "once_done", "wg"} {
 		cs.Ghosts[n] = &GhostDecl{Name: n, Sort: "Int", Dims: 1}
 	}
@@ -139,7 +142,7 @@ var clauseKeywords = map[string]bool{
 var blockKeywords = map[string]bool{
 	"func": true, "type": true, "iface": true, "ext": true, "ghost": true, "global": true,
 	"lemma": true, "spec": true, "rule": true, "package": true, "template": true, "funcs": true,
-	"ghostfield": true, "fieldfunc": true, "modset": true,
+	"ghostfield": true, "fieldfunc": true, "modset": true, "guarded": true,
 }
 
 var labelRe = regexp.MustCompile(`^\[([A-Za-z0-9_.:-]+)\]\s*`)
@@ -213,6 +216,13 @@ func (cs *ContractSet) parseFile(path, pkg string, requirePrefix bool) error {
 					gd.GoType = sortS
 				}
 				cs.Ghosts[f[0]] = gd
+			case "guarded":
+				// guarded Struct.field by lockfield
+				f := strings.Fields(rest)
+				if len(f) != 3 || f[1] != "by" {
+					return fmt.Errorf("%s:%d: guarded Struct.field by lockfield", path, ln)
+				}
+				cs.Guarded[pkg+"::"+f[0]] = f[2]
 			case "modset":
 				parts := strings.SplitN(rest, "=", 2)
 				if len(parts) != 2 {
@@ -392,14 +402,24 @@ func (cs *ContractSet) parseFile(path, pkg string, requirePrefix bool) error {
 				if len(f) < 2 {
 					return fmt.Errorf("%s:%d: loop N invariant|decreases|unroll ...", path, ln)
 				}
-				n, err := strconv.Atoi(f[0])
-				if err != nil {
+				var ls *LoopSpec
+				if n, err := strconv.Atoi(f[0]); err == nil {
+					ls = cur.Loops[n]
+					if ls == nil {
+						ls = &LoopSpec{}
+						cur.Loops[n] = ls
+					}
+				} else if strings.Contains(f[0], ".") {
+					if cur.QLoops == nil {
+						cur.QLoops = map[string]*LoopSpec{}
+					}
+					ls = cur.QLoops[f[0]]
+					if ls == nil {
+						ls = &LoopSpec{}
+						cur.QLoops[f[0]] = ls
+					}
+				} else {
 					return fmt.Errorf("%s:%d: loop ordinal: %v", path, ln, err)
-				}
-				ls := cur.Loops[n]
-				if ls == nil {
-					ls = &LoopSpec{}
-					cur.Loops[n] = ls
 				}
 				body := strings.TrimSpace(strings.TrimPrefix(strings.TrimSpace(strings.TrimPrefix(rest, f[0])), f[1]))
 				switch f[1] {
